@@ -227,6 +227,9 @@ class ImmutableHeadersMixin:
     def setlistdefault(self, key: t.Any, default: t.Any) -> t.NoReturn:
         _immutable_error(self)
 
+    def clear(self) -> t.NoReturn:
+        _immutable_error(self)
+
 
 def _always_update(f: F) -> F:
     def wrapper(
